@@ -76,8 +76,21 @@ def case_term(c):
         m = SMODE[mode] if mode != -1 else "SRaw"
         ss = "[" + ";".join(bl(s) for s in c.get("strs", [])) + "]"
         return "(check_string %s %s %s %s %s)" % (d, cc, m, ss, real)
-    if k in ("record", "rows"):
+    if k == "record":
         return None     # direct oracle only
+    if k == "rows":
+        if not c.get("rowsj") or c.get("oracle") in ("decode-panic", "decode-error", "roundtrip-differs"):
+            return None
+        rs = []
+        for r in c["rowsj"]:
+            tags = "[" + ";".join("(%s, %s)" % (bl(a), bl(b)) for a, b in r["tags"]) + "]"
+            fs = "[" + ";".join("(%s, %s)" % (bl(f["k"]), ("FStr %s" % bl(f["s"])) if f["ty"] == 4 else "FNum %d %d" % (f["ty"], f["bits"]))
+                                for f in r["fields"]) + "]"
+            opts = "[" + ";".join("(%d, %s)" % (o["oid"], zl(o["l"])) for o in r["opts"]) + "]"
+            rs.append("(%s, (%s, (%s, (%s, (%s, %d)))))" % (bl(r["n"]), bl(r["sk"]), tags, fs, opts, r["t"]))
+        n = len(c["hex"]) // 2
+        ks = sorted({k for b in c.get("bounds", []) for k in (b - 1, b, b + 1) if 0 <= k < n} | set(range(0, min(n, 12))) | {n - 1})
+        return "(check_rows [%s] %s %s)" % (";".join(rs), bl(c["hex"]), zl(ks))
     if k == "col":
         if not c.get("segs"):
             return None
@@ -268,7 +281,7 @@ def evaluate(ck, cases):
         shards.append(cur)
     files = []
     for s, ids in enumerate(shards):
-        txt = ("From Coq Require Import ZArith List Bool. From OG Require Import C07.Model C07.Corr.\n"
+        txt = ("From Coq Require Import ZArith List Bool. From OG Require Import C07.Model C07.ModelRows C07.Corr.\n"
                "Import ListNotations. Open Scope Z_scope.\n"
                "Definition R : list Z := Eval vm_compute in [\n%s\n].\nPrint R.\n") % ";\n".join(terms[i] for i in ids)
         files.append(("cases%d" % s, txt))
